@@ -1,6 +1,8 @@
 //! lv-gen: shared generators and independent reference implementations.
+pub mod blob;
 pub mod chain;
 pub mod mutate;
+pub mod proofrefs;
 pub mod ranges;
 pub mod refs;
 pub mod square;
